@@ -545,7 +545,7 @@ func posScenarios(id, tier string) []Scenario {
 		for i := 0; i < 300; i++ {
 			pre = append(pre, chain.Block{Missed: []int{0}})
 		}
-		scs = append(scs, Scenario{Name: "window-300-after-300-misses", Cfg: lw, Prelude: pre, Alphabet: inter, K: 2, D: 3, Tail: 1})
+		scs = append(scs, Scenario{Name: "window-300-after-300-misses", Cfg: lw, Prelude: pre, Alphabet: inter, K: 2, D: 2, Tail: 1})
 		return scs
 	case "C09":
 		k, d := kd(3, 4, 4, 5)
